@@ -17,6 +17,16 @@ def dur_units():
             us.append(Unit(f"C12_dur_f{lo}_{hi}_r{rs}", "harness/C12_dur.cpp",
                            defs=[f"-DC12_FROM_LO={lo}", f"-DC12_FROM_HI={hi}", f"-DC12_REPSET={rs}"],
                            flavours={"quick": q, "thorough": thorough_r0 if rs == 0 else thorough}, shards={"quick": 2, "thorough": 8}))
+    # unsigned tick types (rs 4: u32/u32, u64->i64, u16/u16) and mixed signed/unsigned source/target (rs 5: i64->u64, i32->u32, u32->i64, u16->i32):
+    # one From row per unit; quick builds milli and minute rows for rs 4 and the seconds row for rs 5, thorough five rows each
+    for rs, qrows in ((4, (2, 4)), (5, (3,))):
+        for row in (2, 3, 4, 7, 8):
+            us.append(Unit(f"C12_dur_f{row}_{row}_r{rs}", "harness/C12_dur.cpp",
+                           defs=[f"-DC12_FROM_LO={row}", f"-DC12_FROM_HI={row}", f"-DC12_REPSET={rs}"],
+                           flavours={"quick": quick if row in qrows else [], "thorough": thorough}, shards={"quick": 2, "thorough": 8}))
+    # duration (op) scalar with scalar types different from the representation (member *= /= %= convert to rep first; free operators if declared)
+    us.append(Unit("C12_scalar", "harness/C12_scalar.cpp", flavours={"quick": quick, "thorough": ["asanO0-cc", "asan-cc", "plain-cc"]},
+                   shards={"quick": 4, "thorough": 8}))
     # nano x ratio<5,7>: needs etl::lcm without the m*n overflow; its own unit so that it cannot take the others down
     us.append(Unit("C12_dur_x", "harness/C12_dur.cpp", defs=["-DC12_X=1"],
                    flavours={"quick": quick, "thorough": thorough_r0}, shards={"quick": 2, "thorough": 8}))
@@ -31,10 +41,13 @@ P = dict(
     registered=True,
     level="exploration",
     level_text=("Differential runtime monitoring of etl::chrono::duration / time_point. All 100 ordered pairs of the periods {nano, micro, milli, 1, 60, 3600, 86400, 1/3, 5/7, 1001/30000} "
-                "x representation combinations {i64/i64, i32/i32, i32->i64, i64->i32, f64/f64, i64->f64, f64->i64} x counts [-200,200]+strided (quick) / [-2000,2000] (thorough) "
+                "x representation combinations {i64/i64, i32/i32, i32->i64, i64->i32, f64/f64, i64->f64, f64->i64} (and, for the From rows milli, 1, 60, 1/3, 5/7, the unsigned / mixed-sign "
+                "combinations {u32/u32, u64->i64, u16/u16, i64->u64, i32->u32, u32->i64, u16->i32}; u64 exercised on [0, 2^63-1]) x counts [-200,200]+strided (quick) / [-2000,2000] (thorough) "
                 "plus exact multiples, exact ties and their neighbours, values around +-2^15, +-2^31, +-2^53, +-2^62 and the limits of the representation, plus seeded random counts of every magnitude: "
                 "duration_cast, floor, ceil, round (ties to even), abs, unary +/-, ++/--, *= /= %=, implicit conversion, conversion to the common type, + - / %, all six comparisons, compound += -= %=, "
-                "time_point floor/ceil/round/+=/-=/++/--/comparisons/time_point_cast/converting constructor, named typedefs nanoseconds..years and literals. "
+                "time_point floor/ceil/round/+=/-=/++/--/comparisons/time_point_cast/converting constructor, named typedefs nanoseconds..years and literals; "
+                "declared result type, reference identity and a chained use of every compound / increment operator; member *= /= %= (and the free d*s, s*d, d/s, d%s where tetl declares them) "
+                "with 12 scalar types x 7 representations (scalar converted to rep first; value-preserving or truncating conversions only). "
                 "Each result is compared with std::chrono and with exact __int128 rational arithmetic, only for inputs where the exact result and the standard's own intermediates are representable "
                 "(f64: exact where the exact result is representable, else within 1 ulp of libstdc++). Result types are compared through compile-time booleans recorded at run time. "
                 "Runs under ASan+UBSan (signed overflow inside tetl on an in-domain input is a violation). Held means: no divergence and no sanitizer report on the executions listed in the evidence."),
